@@ -257,6 +257,9 @@ func (s *Sched) accessHook(obj any, field string, write bool) {
 	default:
 		return // a value copy is private to its goroutine
 	}
+	if rv.Pointer() == 0 {
+		return // a nil map / nil pointer is not an object two goroutines can share
+	}
 	key := accessKey{rv.Pointer(), field}
 	a := s.access[key]
 	if a == nil {
@@ -415,6 +418,26 @@ func (s *Sched) Run(bodies []func(), prefix []int) *Exec {
 			break
 		}
 		s.exec.Steps++
+	}
+	if !s.exec.Deadlock && s.exec.Panic == "" && !s.exec.Diverged {
+		// every thread has finished: a lock that is still held was leaked, and the next operation that needs it
+		// (the judge's own introspection calls included) would block for ever
+		for _, ls := range s.locks {
+			held := ""
+			if ls.writer >= 0 {
+				held = fmt.Sprintf("write-locked by thread %d", ls.writer)
+			}
+			for tid, n := range ls.readers {
+				if n > 0 {
+					held = fmt.Sprintf("read-locked by thread %d", tid)
+				}
+			}
+			if held != "" {
+				s.exec.Deadlock = true
+				s.exec.DeadInfo = "all requests returned but a lock is still " + held + " (leaked): every later operation that needs it blocks for ever"
+				break
+			}
+		}
 	}
 	for _, r := range s.races {
 		s.exec.Races = append(s.exec.Races, r)
